@@ -229,7 +229,7 @@ def unmerged(col, cfg, tier, start_hist, depth, table):
             n += 1
             col.inc("unmerged_transitions")
             o = obs_of(stage, rep, None)
-            table.setdefault((cfg["identity"], tuple(cfg["size"]), key), {}).setdefault(tuple(op), set()).add(o)
+            table.setdefault((cfg["identity"], tuple(cfg["size"]), key), {}).setdefault(tuple(op), {}).setdefault(o, nh)
             if stage is not None:
                 stage.close()
                 if not rep.hits and len(nh) < depth:
@@ -409,13 +409,16 @@ def run(ctx):
         ctx.merge(col)
         for k, m in col.table.items():
             for op, obs in m.items():
-                table.setdefault(k, {}).setdefault(op, set()).update(obs)
+                d = table.setdefault(k, {}).setdefault(op, {})
+                for o, h in obs.items():
+                    d.setdefault(o, h)
         keys |= col.keys
         transitions += col.transitions
         zstates += getattr(col, "zstates", 0)
     for s in getattr(ctx, "samples", [])[:0]:
         pass
-    conflicts = [(k, op, sorted(map(str, obs))) for k, m in table.items() for op, obs in m.items() if len(obs) > 1]
+    conflicts = [(k, op, sorted((str(o), h) for o, h in obs.items())) for k, m in table.items()
+                 for op, obs in m.items() if len(obs) > 1]
     if conflicts:
         raise world.HarnessError(f"state merging is unsound: {len(conflicts)} (state, transition) pairs with "
                                  f"different outcomes for different histories, e.g. {conflicts[0]}")
